@@ -452,6 +452,8 @@ func ruleRunes(c *Ctx, r *Repo) {
 					degenerate = true
 				case strings.Contains(a.Expr, "unicode/utf8.RuneError") && strings.Contains(a.Expr, "DecodeRuneInString(ARG0)"):
 					degenerate = true
+				case a.Expr == "unicode.IsLetter(unicode/utf8.DecodeRuneInString(ARG0)#0)" && !a.Val:
+					degenerate = true // not a letter, hence not a lower-case letter
 				}
 			}
 			if q.Ret[0] == "true" {
